@@ -392,4 +392,6 @@ def run_scenarios(work, scenarios, files=None):
     if rc != 0 or not os.path.exists(work.path("m5out.jsonl")):
         return False, gout, []
     outs = read_jsonl(work.path("m5out.jsonl"))
+    import vlib
+    vlib.note_panics(scenarios, outs)
     return len(outs) == len(scenarios), gout, outs
